@@ -211,6 +211,11 @@ func (p *PropRun) Finish(verifDir string, known []Known) int {
 			s.Violations++
 		}
 	}
+	for key, k := range open {
+		if !seenKey[key] {
+			fmt.Fprintf(os.Stderr, "note: known finding %q (property %s) was not reported on this tree (repaired or construct renamed); the entry suppresses nothing\n", k.Key, k.Property)
+		}
+	}
 	// violation records
 	vdir := filepath.Join(verifDir, "out", "violations", p.Property)
 	_ = os.RemoveAll(vdir)
